@@ -289,11 +289,18 @@ func TestVerifC15(t *testing.T) {
 		files = append(files, "README.md", "notes.text") // skipped by ArchiveLicenses: not *.txt
 		rng.Shuffle(len(files), func(i, j int) { files[i], files[j] = files[j], files[i] })
 		rec.out.Emit(map[string]interface{}{"ev": "reset", "keepmemo": false})
-		loaded, err := lcArchive(files)
-		if err != nil {
-			rec.out.Emit(map[string]interface{}{"ev": "loadfail", "round": round, "files": files, "err": err.Error()})
+		// the caller's list is handed over as it is, twice: the second archive of the same list is the one that is loaded
+		pristine := append([]string(nil), files...)
+		if _, err := lcArchive(files); err != nil {
+			rec.out.Emit(map[string]interface{}{"ev": "loadfail", "round": round, "files": pristine, "err": err.Error()})
 			continue
 		}
+		loaded, err := lcArchive(files)
+		if err != nil {
+			rec.out.Emit(map[string]interface{}{"ev": "loadfail", "round": round, "files": pristine, "err": "second archive of the same list: " + err.Error()})
+			continue
+		}
+		files = pristine
 		direct := lcDirect(files)
 		lk := rec.keys(fmt.Sprintf("loaded%d", round), loaded)
 		dk := rec.keys(fmt.Sprintf("direct%d", round), direct)
